@@ -599,6 +599,60 @@ def m_bitop_assign(interp, fn, args, st, site, frame):
     return [(UNIT, st2)]
 
 
+def _cmp_fork(interp, st, op, a, b, site):
+    """decide `a op b` both ways like a MIR comparison would: logs the comparison and the choice; -> [(0 | 1, state)]"""
+    ca, cb = interp.concretize(a, st), interp.concretize(b, st)
+    if isinstance(ca, Const) and isinstance(cb, Const) and isinstance(ca.v, int) and isinstance(cb.v, int):
+        r = {"Lt": ca.v < cb.v, "Le": ca.v <= cb.v, "Gt": ca.v > cb.v, "Ge": ca.v >= cb.v}[op]
+        return [(1 if r else 0, st)]
+    nm = "cmp:%s:%s:%s@%s" % (op, interp.short(ca), interp.short(cb), site.rsplit(":", 1)[-1])
+    out = []
+    for d in (1, 0):
+        st2 = st.fork()
+        st2.effect(("cmp", nm, op, interp.abstract(ca, st2), interp.abstract(cb, st2)))
+        st2.bind[nm] = d
+        st2.choose(nm, d)
+        out.append((d, st2))
+    return out
+
+
+def m_int_minmax(interp, fn, args, st, site, frame):
+    """usize::min / max, cmp::min / max on integers: piecewise linear, so the two cases become two paths with the deciding
+    comparison logged (min(a, b) = a when a <= b)"""
+    full = fn.get("rfull") or fn.get("full") or fn.get("path") or ""
+    m = re.search(r"(?:<impl (?:usize|u8|u16|u32|u64)>::|std::cmp::|<(?:usize|u8|u16|u32|u64) as std::cmp::Ord>::)(min|max)(?:::<(?:usize|u8|u16|u32|u64)>)?$", full)
+    if not m or len(args) != 2:
+        return None
+    a, b = args
+    out = []
+    for (le, st2) in _cmp_fork(interp, st, "Le", a, b, site):
+        if m.group(1) == "min":
+            out.append((a if le else b, st2))
+        else:
+            out.append((b if le else a, st2))
+    return out
+
+
+def m_int_checked_sub(interp, fn, args, st, site, frame):
+    """a.checked_sub(b): Some(a - b) when a >= b, None otherwise; saturating_sub: a - b or 0 - as two paths"""
+    full = fn.get("rfull") or fn.get("full") or fn.get("path") or ""
+    m = re.search(r"<impl (usize|u8|u16|u32|u64)>::(checked_sub|saturating_sub)$", full)
+    if not m or len(args) != 2:
+        return None
+    a, b = args
+    out = []
+    for (ge, st2) in _cmp_fork(interp, st, "Ge", a, b, site):
+        diff = Adt("op:Sub", 0, (a, b))
+        ca, cb = interp.concretize(a, st2), interp.concretize(b, st2)
+        if isinstance(ca, Const) and isinstance(cb, Const) and isinstance(ca.v, int) and isinstance(cb.v, int) and ge:
+            diff = Const(ca.v - cb.v, m.group(1))
+        if m.group(2) == "checked_sub":
+            out.append((some(diff) if ge else NONE, st2))
+        else:
+            out.append((diff if ge else Const(0, m.group(1)), st2))
+    return out
+
+
 def m_to_be_bytes(interp, fn, args, st, site, frame):
     """uN::to_be_bytes(x): byte i is (x >> 8 (n-1-i)) as u8 - kept as that expression (opt-in, concrete_iters)"""
     m = re.search(r"<impl u(8|16|32|64|128)>::to_be_bytes$", fn.get("path") or "")
@@ -1005,6 +1059,8 @@ BASE_MODELS = [
     (r"^core::slice::<impl \[.*\]>::split_at(_mut)?$", m_split_at_concrete),
     (r"^core::slice::<impl \[.*\]>::len$", m_view_len),
     (r"^core::num::<impl u\d+>::to_be_bytes$", m_to_be_bytes),
+    (r"^core::num::<impl (usize|u8|u16|u32|u64)>::(min|max)$|^std::cmp::(min|max)$|as std::cmp::Ord>::(min|max)$", m_int_minmax),
+    (r"^core::num::<impl (usize|u8|u16|u32|u64)>::(checked_sub|saturating_sub)$", m_int_checked_sub),
     (r"Bit(Xor|And|Or)Assign(<.*>)?>::bit(xor|and|or)_assign$", m_bitop_assign),
     (r"^core::num::<impl u\d+>::from_be_bytes$", m_from_be_bytes),
     (r"^std::iter::Iterator::skip$|as std::iter::Iterator>::skip$", m_iter_skip),
